@@ -181,6 +181,7 @@ def main():
     mod = _MOD = _load(prop)
     from sxv import inst
     budget = getattr(mod, 'BUDGET_S', {'quick': 600, 'thorough': 3000})[tier]
+    budget *= float(os.environ.get('SXV_BUDGET_SCALE', '1'))        # for validation runs on a loaded machine; the registered commands do not set it
     deadline = t0 + budget
     notes = []
 
